@@ -702,6 +702,8 @@ class CallMixin:
         return self.prim(st, 'iter', [args.pos[0]])
 
     def b_super(self, st, args):
+        if len(args.pos) == 2 and args.pos[0].k == 'class' and args.pos[0].v in self.repo.classes:
+            return [('ok', st, SV('super', (self.repo.classes[args.pos[0].v], args.pos[1])))]
         cname = st.env.get('$class')
         if cname is None or cname.v is None:
             raise Unsupported('super() outside method')
